@@ -211,3 +211,44 @@ Proof. exact DynReplaces.printed_names_distinct. Qed.
 Print Assumptions dynamic_replaces_static.
 Print Assumptions dynamic_replaces_static_node.
 Print Assumptions printed_names_distinct.
+
+(* ---- SOURCE LEVEL (Proofs/EndToEndMore.v, Proofs/PosIrrelevant.v, session 3): two SOURCE TEXTS that differ only in the
+   written order of the directive attributes of one element (with, if, range, a dynamic attribute, text) load, and for EVERY
+   data value, fuel, table, state and manager with these prefixes their executions are equal.  The two loaded trees are NOT
+   reorder_eq — the scanner records positions and the raw tag text — so PosIrrelevant.v first proves that the renderer
+   reads none of them (execute_pos_irrelevant).  The four remove modes, a block element and a hidden comment, from source
+   text, for all data. *)
+From Coq Require Import List NArith ZArith Bool Lia Arith String Ascii Permutation.
+From Tpl Require Import Html.Exec Html.Manager Gen.Facts Proofs.ExecSpec Proofs.SortProps Proofs.FuelMono
+  Proofs.ReadbackExample Proofs.EndToEnd Proofs.EndToEndDirectives Proofs.OrderIrrelevant Proofs.PosIrrelevant.
+Import ListNotations.
+Open Scope N_scope.
+From Tpl Require Import Proofs.EndToEndMore.
+Theorem e2e_written_order_irrelevant_thm :
+  exists root1 root2,
+    bx_load (s2l "<ul><li :with=""w := ${p}"" :if=""${c}"" :range=""i, x : xs"" :title=""${w}"" :text=""${x}"">y</li></ul>") = inl root1 /\
+    bx_load (s2l "<ul><li :range=""i, x : xs"" :title=""${w}"" :if=""${c}"" :text=""${x}"" :with=""w := ${p}"">y</li></ul>") = inl root2 /\
+    forall (tps : list (str * template)) (gl : scope) (fuel : nat) (data : value) (t : tbl) (st : rst),
+      bx_execute (mkM (s2l "t:") (s2l ":") tps gl) fuel (tp_of root1) data t st =
+      bx_execute (mkM (s2l "t:") (s2l ":") tps gl) fuel (tp_of root2) data t st.
+Proof. exact EndToEndMore.e2e_written_order_irrelevant. Qed.
+Theorem e2e_remove_modes_thm :
+  loads_and (s2l "<div :remove=""all""> <b>1</b> <i>2</i> </div>!") (fun tp =>
+    forall data t st fuel, r_budget st = None -> (4 <= fuel)%nat ->
+    bx_execute bx_mgr fuel tp data t st = (s2l "!", ROk, t, st)) /\
+  loads_and (s2l "<div :remove=""body""> <b>1</b> <i>2</i> </div>!") (fun tp =>
+    forall data t st fuel, r_budget st = None -> (4 <= fuel)%nat ->
+    bx_execute bx_mgr fuel tp data t st = (s2l "<div></div>!", ROk, t, st)) /\
+  loads_and (s2l "<div :remove=""tag""> <b>1</b> <i>2</i> </div>!") (fun tp =>
+    forall data t st fuel, r_budget st = None -> (4 <= fuel)%nat ->
+    bx_execute bx_mgr fuel tp data t st = (s2l " <b>1</b> <i>2</i> !", ROk, t, st)) /\
+  loads_and (s2l "<div :remove=""all-but-first""> <b>1</b> <i>2</i> </div>!") (fun tp =>
+    forall data t st fuel, r_budget st = None -> (4 <= fuel)%nat ->
+    bx_execute bx_mgr fuel tp data t st = (s2l "<div> <b>1</b> </div>!", ROk, t, st)).
+Proof. exact EndToEndMore.e2e_remove_modes. Qed.
+Theorem e2e_block_source_to_output_thm : loads_and src_block (fun tp =>
+  forall (c : bool) (t : tbl) (st : rst) (fuel : nat), r_budget st = None -> (5 <= fuel)%nat ->
+  bx_execute bx_mgr fuel tp (VMap [(s2l "c", VBool c)]) t st =
+  ((if c then s2l "A<b>B</b>" else []) ++ s2l "C<!-- shown -->", ROk, tbl_set t 1 c, st)).
+Proof. exact EndToEndMore.e2e_block_source_to_output. Qed.
+Print Assumptions e2e_written_order_irrelevant_thm.
